@@ -170,6 +170,18 @@ func c19NoRecover(c *vlib.Ctx) {
 				s.one(t, b, hows[i])
 			}
 			c.Count("structural_variants", len(vs))
+			if si < c.Pick(6, 60) {
+				sh := cp.Shrinks(seed, c.Pick(200, 1200))
+				for _, b := range sh {
+					s.one(t, b, "shrink-region")
+				}
+				c.Count("shrink_variants", len(sh))
+				sw := cp.ByteSweep(seed, c.Pick(160, 1500))
+				for _, b := range sw {
+					s.one(t, b, "byte-sweep")
+				}
+				c.Count("byte_sweep_variants", len(sw))
+			}
 			c.End()
 		}
 		chunk := 100
